@@ -33,7 +33,7 @@ class Rule:
         return " ".join(str(x) for x in t)
 
 
-def gen_program(rng, nkeys, cyclic=False, malformed=False):
+def gen_program(rng, nkeys, cyclic=False, malformed=False, mustfollow=False):
     """keys 1..nkeys; the first third are inputs; derived rules request lower keys (a DAG) unless `cyclic`."""
     ninputs = max(2, nkeys // 3)
     rules = {}
@@ -58,6 +58,8 @@ def gen_program(rng, nkeys, cyclic=False, malformed=False):
                 key = 1
             kd = rng.below(12)
             kind = 2 if kd == 0 else (1 if kd == 1 else 0)
+            if mustfollow and rng.chance(1, 3):
+                kind = 2
             return (key, nid[0], kind)
         for _ in range(rng.below(4)):
             r.statics.append(req())
@@ -70,8 +72,12 @@ def gen_program(rng, nkeys, cyclic=False, malformed=False):
         if rng.chance(1, 3):
             for _ in range(1 + rng.below(2)):
                 tgt = 1 + rng.below(ninputs)
-                if malformed and rng.chance(1, 3):
-                    tgt = ninputs + 1 + rng.below(max(1, k - ninputs - 1)) if k > ninputs + 1 else tgt
+                if malformed and rng.chance(1, 2):
+                    # a discovered dependency on a derived rule (outside Program.WF, but the engine allows it);
+                    # with `cyclic` it may point forward, so that discovered edges can close cycles
+                    tgt = 1 + rng.below(nkeys if cyclic else max(1, k - 1))
+                    if tgt == k:
+                        tgt = 1
                 if value_reqs and rng.chance(1, 2):
                     base = rng.choice(value_reqs)
                     c = (1, base[1], 2, rng.below(2))
@@ -130,13 +136,15 @@ class Cyclic(Exception):
     pass
 
 
-def clean_value(rules, env, k, stack=(), follow_single_use=True):
+def clean_value(rules, env, k, stack=(), follow_single_use=True, _disc_seen=None):
     """what a brand-new engine computes; raises Cyclic when the demanded graph has a cycle.
     With follow_single_use=False single-use requests are not evaluated (their values are masked anyway):
     this is the reference the incremental engine is held to, because single-use dependencies are by
     definition dropped from the recorded dependencies and never re-demanded by later builds."""
     if k in stack:
         raise Cyclic()
+    if _disc_seen is None:
+        _disc_seen = set()
     r = rules.get(k) or Rule(k, 0)
     got, done = {}, set()
     while True:
@@ -151,13 +159,17 @@ def clean_value(rules, env, k, stack=(), follow_single_use=True):
             if q[2] == 1 and not follow_single_use:
                 got[q[1]] = 0
                 continue
-            v = clean_value(rules, env, q[0], stack + (k,), follow_single_use)   # a brand-new engine builds every request
+            v = clean_value(rules, env, q[0], stack + (k,), follow_single_use, _disc_seen)   # a brand-new engine builds every request
             if q[2] == 0:
                 got[q[1]] = v
             elif q[2] == 1:
                 got[q[1]] = 0
+    # discovered dependencies are brought up to date AFTER the discoverer finished: they are not nested
+    # in its evaluation (mutual discovery is not a cycle), but each must itself be buildable
     for d in disc_keys(r, got):
-        clean_value(rules, env, d, stack + (k,), follow_single_use)
+        if d not in _disc_seen:
+            _disc_seen.add(d)
+            clean_value(rules, env, d, (), follow_single_use, _disc_seen)
     return out_value(r, env, got)
 
 
@@ -344,6 +356,7 @@ class Shadow:
         self.sig_at_complete = {}
         self.interrupted = set()
         self.persist_epoch = 0
+        self.deps = {}         # key -> recorded dependencies [(key, orderOnly, singleUse)] of its last completed execution
 
 
 def analyse_case(case, houts, focus):
@@ -421,6 +434,9 @@ def analyse_case(case, houts, focus):
                         ok = valid_seen.get(k) is False
                     elif reason == 3:
                         ok = inp in sh.changed and k in sh.uptodate and sh.changed[inp] > sh.uptodate[k]
+                        if ok and not any(d == inp and not oo for d, oo, su in sh.deps.get(k, [])):
+                            fails.append({"what": "rule %d re-run because of input %d, which it only recorded as an order-only (must-follow) dependency or not at all: %s" % (k, inp, sh.deps.get(k)),
+                                          "kind": "false-reason", "reason": 3, "order_only": True, "input": where})
                     else:
                         ok = False
                     if not ok:
@@ -524,6 +540,9 @@ def analyse_case(case, houts, focus):
                     sh.dbvalue[k] = sh.value.get(k, 0)
                     sh.dbchanged[k] = sh.changed.get(k, 0)
                     sh.sig_at_complete[k] = (case.rules[k].sigBase + env.get(SIG_OFFSET + k, 0)) if k in case.rules else 0
+            elif t == "DS":
+                nd = int(e[6])
+                sh.deps[int(e[1])] = [(int(e[7 + 3 * j]), e[8 + 3 * j] == "1", e[9 + 3 * j] == "1") for j in range(nd)]
             elif t == "DI":
                 sh.persist_epoch = int(e[1])
         if tail and (tail[1] != "0" or tail[2] != "0"):
@@ -546,7 +565,8 @@ def analyse_case(case, houts, focus):
             st["cycles"] += 1
             ks = [int(x) for x in cyc[0][2:]]
             if not ks or ks[0] != o["key"] or ks[-1] not in ks[:-1]:
-                fails.append({"what": "reported cycle %s does not start at the requested key or does not close" % ks, "kind": "bad-cycle", "input": where})
+                fails.append({"what": "reported cycle %s does not start at the requested key or does not close" % ks, "kind": "bad-cycle",
+                              "empty_list": not ks, "requested_key_complete": o["key"] in finished, "input": where})
         # C01 / C07 oracle against a brand-new engine (harness `O` op) and the python reference
         def ref(strict):
             try:
